@@ -329,7 +329,7 @@ impl Harness for TokenStrings {
 
 pub fn run_c13(tier: Tier) -> i32 {
     let mut rep = Report::new("C13", tier.name());
-    rep.rule = "positives: DFS over reference trees (interface name x members from {type-struct, type-enum, method, error} x field lists x type trees within a global budget of wrapper/inline nodes x comment on every subset of commentable positions) x layouts {no optional whitespace, single spaces, newline+tab between tokens, CRLF, one field per line with comment lines}; the text comes from the harness's own renderer. Negatives: for every tree of a smaller bound, every single mutation (delete / duplicate each token, swap each adjacent pair, insert each of 10 characters at each byte, truncate at each byte) and every string of <=4/5 tokens over a 13-token alphabet after `interface a.b`. Every text is classified by a reference recogniser written from the grammar: must-accept (tree compared incl. comments), must-reject, or don't-care (derivable only with comments/layout the statement does not name: either answer passes, but an accepted tree must still equal the denoted one)".into();
+    rep.rule = "positives: DFS over reference trees (interface name x members from {type-struct, type-enum, method, error} x field lists x type trees within a global budget of wrapper/inline nodes x comment on every subset of commentable positions) x layouts {no optional whitespace, single spaces, newline+tab between tokens, CRLF, one field per line with comment lines}; the text comes from the harness's own renderer. Negatives: for every tree of a smaller bound, every single mutation (delete / duplicate each token, swap each adjacent pair, insert each of 10 characters at each byte, truncate at each byte) and every string of <=4/5 tokens over a 13-token alphabet after `interface a.b`. Deep nesting: four kinds of types nested 64 / 512 / 2048 levels (must parse and round-trip) and 16384 / 65536 levels (must not kill the process; rejecting them is accepted), each in a child process with an 8 MiB stack. Every text is classified by a reference recogniser written from the grammar: must-accept (tree compared incl. comments), must-reject, or don't-care (derivable only with comments/layout the statement does not name: either answer passes, but an accepted tree must still equal the denoted one)".into();
     rep.assumptions = vec![
         "the Varlink grammar as published on varlink.org; members may share a line only in the don't-care zone; `()` in type position is an empty struct".into(),
         "comment text is compared modulo surrounding whitespace".into(),
@@ -377,6 +377,31 @@ pub fn run_c13(tier: Tier) -> i32 {
     }
     let max = tier.pick(4, 5);
     rep.add(explore(&format!("token-strings/<={max}"), json!({"what": "tokens", "max": max}), &TokenStrings { max }, &cfg));
+    // deep nesting, each text parsed (and rendered and parsed back) in a child process on a thread
+    // with an 8 MiB stack: `[]`^d int, `[string]`^d int, inline structs nested d deep, (`?[]`)^d int
+    {
+        let exe = std::env::current_exe().expect("current_exe");
+        let moderate: [usize; 3] = [64, 512, 2048];
+        let extreme: [usize; 4] = [65536, 65536, 16384, 65536];
+        let cases: Vec<(usize, usize, bool)> = (0..4usize).flat_map(|k| moderate.iter().map(move |d| (k, *d, false)).chain(std::iter::once((k, extreme[k], true)))).collect();
+        let kinds = ["`[]` repeated", "`[string]` repeated", "inline structs nested", "`?[]` repeated"];
+        rep.add(sweep("deep-nesting(child processes)", cases.len() as u64, &Config { threads: 4, ..cfg.clone() }, |i, sink| {
+            let (kind, depth, extreme) = cases[i as usize];
+            let case = json!({"what": "deep", "kind": kind, "depth": depth});
+            let out = std::process::Command::new(&exe).arg("idl-deep").arg(depth.to_string()).arg(kind.to_string()).stdout(std::process::Stdio::null()).stderr(std::process::Stdio::null()).status();
+            let what = format!("a type with {} {depth} times", kinds[kind]);
+            match out.map(|s| s.code()) {
+                Ok(Some(0)) => sink.pass(H64::new().u(kind as u64).u(depth as u64).get()),
+                // beyond a few thousand levels a resource limit is a legitimate answer
+                Ok(Some(3)) if extreme => sink.pass(H64::new().u(kind as u64).u(depth as u64).u(3).get()),
+                Ok(Some(3)) => sink.fail("idlparse:valid-text-rejected", format!("{what} was rejected"), case),
+                Ok(Some(4)) => sink.fail("idlround:rendered-text-not-parseable", format!("{what} parsed, but its rendering did not parse back"), case),
+                Ok(Some(c)) => sink.fail("idlparse:deep-nesting-child-failed", format!("{what}: child exit code {c}"), case),
+                Ok(None) => sink.fail("idlparse:stack-overflow-on-a-deeply-nested-type", format!("{what} (a text of {} KB) killed the process: the recursive-descent parser (and the recursive Display / Drop of the tree) exhausted an 8 MiB stack", depth * [2, 8, 5, 3][kind] / 1024), case),
+                Err(e) => xplore::bug!("cannot run the child: {e}"),
+            }
+        }));
+    }
     // supplement (sampling, labelled): byte soup
     let seed = rep.seed;
     let n = tier.pick(300_000u64, 5_000_000u64);
@@ -545,4 +570,33 @@ pub fn replay(v: &Value) -> Replayed {
         _ => None,
     }
     .unwrap_or_else(|| Replayed::Error("cannot rebuild the IDL harness from the replay file".into()))
+}
+
+/// One deeply nested type (`kind` 0: `[]`^depth int, 1: `[string]`^depth int, 2: inline structs
+/// nested `depth` times, 3: `?[]` alternating), parsed and rendered back in this process.  Exit 0:
+/// parsed and round-tripped; 3: rejected; the process dies on a stack overflow.
+pub fn deep_child(depth: usize, kind: usize) -> i32 {
+    // a fixed stack, so that the outcome does not depend on the caller's `ulimit -s`
+    std::thread::Builder::new().stack_size(8 << 20).spawn(move || deep_parse(depth, kind)).expect("spawn").join().unwrap_or(5)
+}
+
+fn deep_parse(depth: usize, kind: usize) -> i32 {
+    let ty = match kind {
+        0 => format!("{}int", "[]".repeat(depth)),
+        1 => format!("{}int", "[string]".repeat(depth)),
+        2 => format!("{}int{}", "(a: ".repeat(depth), ")".repeat(depth)),
+        _ => format!("{}int", "?[]".repeat(depth)),
+    };
+    let text = format!("interface a.b\ntype T (f: {ty})\n");
+    match zlink_core::idl::Interface::try_from(text.as_str()) {
+        Ok(i) => {
+            let back = i.to_string();
+            if zlink_core::idl::Interface::try_from(back.as_str()).is_ok() {
+                0
+            } else {
+                4
+            }
+        }
+        Err(_) => 3,
+    }
 }
